@@ -324,12 +324,13 @@ def run(ctx):
         # only -- 6.4 million transitions are not replayed
         r = vlib.tlc(SPECDIR, "CowVariantImpl", "CowVariantImpl_big.cfg", workers=8, timeout=2400, xmx="6g")
         ctx.add_tlc("CowVariantImpl:big", r)
-    # integers beyond TLC's 32 bits: type, decimal text, 64-bit conversions and copy-equality of boundary and random values
+    # integers beyond TLC's 32 bits: type, decimal text, 64-bit conversions, toDouble and copy-equality of boundary and random values
     def wide_line(kind, v):
         v &= (1 << 64) - 1
         return "wide %s %d %d %d %d" % (kind, v & 0xffff, (v >> 16) & 0xffff, (v >> 32) & 0xffff, (v >> 48) & 0xffff)
     wl = []
-    edges = [0, 1, 9, 10, 2 ** 31 - 1, 2 ** 31, 2 ** 32 - 1, 2 ** 32, 2 ** 53, 2 ** 53 + 1, 10 ** 18, 2 ** 63 - 1, 2 ** 63, 2 ** 63 + 1, 10 ** 19, 2 ** 64 - 1]
+    edges = [0, 1, 9, 10, 2 ** 31 - 1, 2 ** 31, 2 ** 32 - 1, 2 ** 32, 2 ** 53, 2 ** 53 + 1, 10 ** 18, 2 ** 63 - 1, 2 ** 63, 2 ** 63 + 1, 10 ** 19, 2 ** 64 - 1,
+             2 ** 54 + 2, 2 ** 54 + 6, 2 ** 54 + 3, 2 ** 63 + 1024, 2 ** 63 + 3072, 2 ** 63 + 1025, 2 ** 64 - 1024, 2 ** 64 - 1025, 2 ** 62 + 256, 2 ** 62 + 257]   # ties of the integer -> double rounding
     for v in edges:
         wl += [wide_line("u64", v), wide_line("i64", v), wide_line("i64", -v), wide_line("u32", v & 0xffffffff), wide_line("i32", v & 0xffffffff)]
     for _ in range(60 if ctx.quick else 3000):
@@ -349,7 +350,8 @@ def run(ctx):
     if ts["events"] >= 2000 and not ctx.violations and (ts["depth2"] == 0 or ts["equal_pairs_nonnull"] == 0 or ts["containers"] == 0):
         ctx.broken.append("vacuity: random histories reach no nested / shared / container states: %s" % ts)
     ctx.assumptions += ["numbers restricted to |n| <= 2^31-1 and doubles to halves; 64-bit extremes and double->text are "
-                        "exercised (smoke op, sanitizers, equal-to-own-copy) but their coerced values are not decided",
+                        "exercised (smoke op, sanitizers, equal-to-own-copy); for 64-bit integers the wide op decides type, text, "
+                        "toInt64 / toUInt64 and toDouble (nearest double, ties to even) - other coerced values are not decided",
                         "coercions taken from Variant.hpp/String.cpp: cross-type equality, string->number for "
                         "non-canonical numerals and negative->unsigned of doubles are not decided",
                         "a mutable reference obtained from an accessor is used immediately (not held across a copy); a "
